@@ -45,7 +45,8 @@ def gen_case(streams, tier):
     for _ in range(g.choice([1, 1, 2])):
         cfg = gen.make_cfg(nets=(2, 9), classes=g.choice([['bit', 'small'], ['small']]),
                            max_mul_width=4, mem_wide_aw=0.0, mem_aw=(1, 3), rom_aw_max=3,
-                           regs=(0, 3), mems=(0, 2), roms=(0, 1), max_concat=16, trunc=False)
+                           regs=(0, 3), mems=(0, 2), roms=(0, 1), max_concat=16, trunc=False,
+                           write_only_mem_prob=0.25)
         script = gen.gen_script(g, cfg)
         designs.append({'script': script,
                         'cycles': gen.gen_inputs(streams['inputs'], script, 5)})
@@ -120,7 +121,7 @@ def run(case, res):
                 result = pyrtl.copy_block(tgt.block, update_working_block=False)
             elif kind == 'synth':
                 result = pyrtl.synthesize(update_working_block=False, block=tgt.block,
-                                          merge_io_vectors=True)
+                                          merge_io_vectors=bool(op['b'] % 3))
             elif kind == 'opt':
                 with transforms.quiet():
                     result = pyrtl.optimize(update_working_block=False, block=tgt.block)
@@ -187,6 +188,16 @@ def run(case, res):
         if pyrtl.working_block() is not wb:
             return Violation('working_block', 'changed_by_non_updating_call',
                              {'op': kind, 'index': oi}, tags)
+        # (3') at every moment: no two blocks of the pool share a wire or memory object (an edit
+        # of a source made after a copy must not reach into the copy, nor the other way round)
+        owner = {}
+        for e in pool:
+            for k, what in objects_of(e.block).items():
+                if k in owner and owner[k] is not e:
+                    return Violation('aliasing', 'two_blocks_share_an_object',
+                                     {'op': kind, 'index': oi, 'object': what,
+                                      'blocks': [owner[k].label, e.label]}, tags)
+                owner[k] = e
         # (1) fingerprints
         for e in pool:
             if e is edit_target:
@@ -230,6 +241,12 @@ def run(case, res):
                     if result.memblock_by_name.get(m.name) is not m:
                         return Violation('result', 'memblock_by_name_is_not_the_memory_in_use',
                                          {'op': kind, 'mem': m.name}, tags)
+            if kind == 'synth' and not (op['b'] % 3) and \
+                    any(w.bitwidth > 1 for w in tgt.block.wirevector_subset((pyrtl.Input, pyrtl.Output))):
+                # unmerged I/O: the result has per-bit ports, so the source's tape does not drive
+                # it (C03 owns that translation); it was checked structurally, it is not pooled
+                res.probes.hit('unmerged_result_not_pooled')
+                continue
             ent = Entry(result, tgt.tape, '%s(%s)#%d' % (kind, tgt.label, oi))
             compare = True
             if kind == 'opt':
